@@ -132,13 +132,6 @@ theorem step_result (c : Cfg) (s : MSt) (new : SState) (es ee now : Int)
 def Rel (sp : SpecSt) (s : MSt) : Prop :=
   sp.state = s.base.state ∧ sp.ack = s.ack ∧ (s.ack ≠ .none → sp.expiry = s.expiry) ∧ sp.comments = s.comments
 
-def OpOk : Op → Prop
-  | .ack .extExpire _ _ _ expiry _ => expiry = 0
-  | _ => True
-
-instance (op : Op) : Decidable (OpOk op) := by
-  unfold OpOk; split <;> infer_instance
-
 theorem ranOut_eq (sp : SpecSt) (s : MSt) (now : Int) (h : Rel sp s) : ranOut sp now = expired s now := by
   obtain ⟨_, h2, h3, _⟩ := h
   unfold ranOut expired
@@ -205,7 +198,7 @@ theorem spec_step_remove (c : Cfg) (sp : SpecSt) (s : MSt) (via : RVia) (now : I
   · simp [specNext, obsOf, Rel]
 
 theorem spec_step_ack (c : Cfg) (sp : SpecSt) (s : MSt) (via : Via) (sticky notify persistent : Bool) (expiry now : Int)
-    (h : Rel sp s) (hok : OpOk (.ack via sticky notify persistent expiry now)) :
+    (h : Rel sp s) :
     specStep c sp (.ack via sticky notify persistent expiry now) (obsOf c (step c s (.ack via sticky notify persistent expiry now))) = none ∧
     Rel (specNext sp (.ack via sticky notify persistent expiry now) (obsOf c (step c s (.ack via sticky notify persistent expiry now))))
       (step c s (.ack via sticky notify persistent expiry now)).1 := by
@@ -213,7 +206,7 @@ theorem spec_step_ack (c : Cfg) (sp : SpecSt) (s : MSt) (via : Via) (sticky noti
   have ha := ackAt_eq sp s now h
   have hrel := rel_getAck sp s now h
   have hreq : requestedExpiry via expiry = storedExpiry via expiry := by
-    cases via <;> simp_all [requestedExpiry, storedExpiry, OpOk]
+    cases via <;> simp [requestedExpiry, storedExpiry]
   rw [step_ack]
   cases hc : (preRefuse c s via expiry now || ackNow s now != .none)
   · -- accepted
@@ -272,28 +265,28 @@ theorem spec_step_result (c : Cfg) (sp : SpecSt) (s : MSt) (new : SState) (es ee
         clearsOnChange, handledOf, problemOf, stepCore_state, specNext, Rel, h3', hsend, hp]
 
 
-/-- Every operation outside F-C06a keeps the relation and satisfies the specification. -/
-theorem spec_step (c : Cfg) (sp : SpecSt) (s : MSt) (op : Op) (h : Rel sp s) (hok : OpOk op) :
+/-- Every operation keeps the relation and satisfies the specification. -/
+theorem spec_step (c : Cfg) (sp : SpecSt) (s : MSt) (op : Op) (h : Rel sp s) :
     specStep c sp op (obsOf c (step c s op)) = none ∧ Rel (specNext sp op (obsOf c (step c s op))) (step c s op).1 := by
   cases op with
   | result new es ee now =>
     cases hst : stale s.base ⟨new, es, now⟩
     · exact spec_step_result c sp s new es ee now h hst
     · exact spec_step_stale c sp s new es ee now h hst
-  | ack via sticky notify persistent expiry now => exact spec_step_ack c sp s via sticky notify persistent expiry now h hok
+  | ack via sticky notify persistent expiry now => exact spec_step_ack c sp s via sticky notify persistent expiry now h
   | remove via now => exact spec_step_remove c sp s via now h
   | advance now => exact spec_step_advance c sp s now h
 
 theorem spec_trace_rel (c : Cfg) (ops : List Op) :
-    ∀ (sp : SpecSt) (s : MSt), Rel sp s → (∀ op ∈ ops, OpOk op) → specTrace c sp (trace c s ops) = none := by
+    ∀ (sp : SpecSt) (s : MSt), Rel sp s → specTrace c sp (trace c s ops) = none := by
   induction ops with
-  | nil => intro sp s _ _; simp [trace, specTrace]
+  | nil => intro sp s _; simp [trace, specTrace]
   | cons op ops ih =>
-    intro sp s hr hall
-    obtain ⟨h1, h2⟩ := spec_step c sp s op hr (hall op (by simp))
+    intro sp s hr
+    obtain ⟨h1, h2⟩ := spec_step c sp s op hr
     simp only [trace, specTrace]
     rw [h1]
-    exact ih _ _ h2 (fun o ho => hall o (by simp [ho]))
+    exact ih _ _ h2
 
 theorem rel_init : Rel specInit init := by
   simp [Rel, specInit, init, pending]
